@@ -91,7 +91,7 @@ package polynomial
 //@   requires p != nil && p.group != nil && len(p.coefficients) > 0 && p.coefficients[0] != nil
 //@   modifies nothing
 //@   allocates
-//@   ensures result != nil
+//@   ensures result != nil && fresh(result) && scval(result) == scval(p.coefficients[0])
 
 //@ func (*Polynomial).Degree
 //@   nopanic[C05]
